@@ -58,5 +58,10 @@ func VerifRetention() {
 	if k > 0 {
 		rt.Assert(total-removed+fr[k-1].info.FullSize() > fm.config.TotalSize, "retention stops as soon as the size is under the limit")
 	}
+	// the age of the oldest data the store still holds (what makes a hot store answer "this range is
+	// older than my retention, ask the long-term stores") is that of the oldest *surviving* fraction
+	if k < n {
+		rt.Assert(fm.OldestCT.Load() == fr[k].info.CreationTime, "the store's oldest creation time is the oldest surviving fraction's")
+	}
 	rt.Reach("end")
 }
